@@ -163,7 +163,7 @@ def rng_free_inner(f):
 
 
 def run(ctx):
-    drv, model = ec.prepare(ctx, ec.C12_OBLIGATIONS)
+    drv, model = ec.prepare(ctx, ec.C12_PROOF_MODULES, ec.C12_OBLIGATIONS)
     n = 700 if ctx.tier == "quick" else 20000
     cases = list(CORPUS)
     sweep = ec.class_sweep()
@@ -200,7 +200,7 @@ def run(ctx):
 
 
 def replay(ctx, rep):
-    drv, model = ec.prepare(ctx, [])
+    drv, model = ec.prepare(ctx, [], [])
     c = rep["replay"]["case"]
     line = ctx.run_lines(drv, ["E " + c])[0]
     print("case :", c)
